@@ -707,10 +707,39 @@ func c18ProbeKeys(comp *c18Component, user []c18KV, full bool, focus string) []s
 	return res
 }
 
+// the component's own defaults as a user map: applying it is a no-op on a fresh component (every default satisfies
+// its validator -- theorem C18_tables_ok) and reports nothing; it stands for an EARLIER, valid application of
+// parameters to the same instance, after which a later application must still be validated afresh
+var c18primeCounter int
+
+func c18DefaultsMap(comp *c18Component) parameters.Map {
+	m := parameters.Map{}
+	for i := range comp.Specs {
+		sp := &comp.Specs[i]
+		if sp.Optional || sp.Key == "DataSourcePath" {
+			continue // the default "" of DataSourcePath is not a readable file: applying it would itself be reported
+		}
+		if v, ok := c18DefaultValue(sp.Default); ok {
+			m[sp.Key] = v
+		}
+	}
+	return m
+}
+
 func c18RunGeneric(comp *c18Component, real *c18Real, variant string, user []c18KV, full bool, class string) {
 	p := new(parameters.Parameters).Initialise("verif C18").Enforcing(real.table())
 	um := c18ToMap(user)
+	c18primeCounter++
+	prime := c18primeCounter%2 == 0
 	panicked, what := protect(func() {
+		if prime {
+			c18stats["primed_with_defaults"]++
+			if variant == "all" {
+				p.AssignAllUserValues(c18DefaultsMap(comp))
+			} else {
+				p.AssignOnlyEnforcedUserValues(c18DefaultsMap(comp))
+			}
+		}
 		if variant == "all" {
 			p.AssignAllUserValues(um)
 		} else {
@@ -760,7 +789,14 @@ func c18RunComponent(comp *c18Component, real *c18Real, user []c18KV, class stri
 		return
 	}
 	um := c18ToMap(user)
-	panicked, what := protect(func() { set(um) })
+	c18primeCounter++
+	panicked, what := protect(func() {
+		if c18primeCounter%2 == 0 {
+			c18stats["primed_with_defaults"]++
+			set(c18DefaultsMap(comp))
+		}
+		set(um)
+	})
 	focus := ""
 	if len(user) > 0 {
 		focus = user[0].k
